@@ -504,6 +504,62 @@ def r7(ctx, R, rule="C15.R7"):
         R.undecided(rule, worker.short, "process-wide settings", loc(worker, worker.node), "the worker sets no process-wide setting from its arguments")
 
 
+def r8(ctx, R):
+    """Links that one object's resolver installs on *another* object (the submodule
+    attaches the implementation to the prototype in the ancestor module) survive
+    only if the other object's own resolver leaves that field alone: the two
+    resolvers run in the order in which files happen to be linked."""
+    from .c20 import _classes_by_type_id
+
+    R.rule("C15.R8", "a link field that a resolver stores on another object is not written by that object's own resolvers (otherwise the result depends on which file is linked first)", floor=1, confirmed=1)
+    n = 0
+    for f in sorted(ctx.m.funcs.values(), key=lambda g: g.qual):
+        if not (f.name.startswith("resolve_") and f.rel.startswith("fortls/parsers/") and f.cls):
+            continue
+        for st in ctx.m.walk_own(f.node):
+            if not isinstance(st, ast.Assign):
+                continue
+            for t in st.targets:
+                if not (isinstance(t, ast.Attribute) and isinstance(t.value, ast.Name) and t.value.id != f.params[0]):
+                    continue
+                if isinstance(st.value, ast.Constant):
+                    continue
+                fld = t.attr
+                # the selection by type id is more exact than a declared element type
+                ks = _classes_by_type_id(ctx, f, t.value)
+                if not ks:
+                    ks = ctx.r.expr_classes(f, t.value)
+                    ks = {d for k_ in ks for d in ctx.m.cone(k_)} if ks else None
+                k = key(f, st)
+                unknown = not ks
+                if unknown:
+                    ks = set(ctx.m.classes)  # any class: decided only if no resolver anywhere writes the field on itself
+                n += 1
+                bad = None
+                for c in sorted(ks):
+                    names = {m for q in ctx.m.mro(c) for m in ctx.m.classes[q].methods if m.startswith("resolve_")}
+                    for m in sorted(names):
+                        q = ctx.m.method(c, m)
+                        if not q:
+                            continue
+                        g = ctx.m.funcs[q]
+                        for s2 in ctx.m.walk_own(g.node):
+                            if isinstance(s2, (ast.Assign, ast.AnnAssign, ast.AugAssign)):
+                                tg2 = s2.targets if isinstance(s2, ast.Assign) else [s2.target]
+                                if any(isinstance(x, ast.Attribute) and x.attr == fld and isinstance(x.value, ast.Name) and x.value.id == g.params[0] for x in tg2):
+                                    bad = (g, s2, c)
+                if bad and unknown:
+                    R.undecided("C15.R8", f.short, k, loc(f, st), f"class of `{unparse(t.value)}` not derived, and {bad[0].short} writes `{fld}` on itself")
+                elif bad:
+                    g, s2, c = bad
+                    R.violation("C15.R8", f.short, k, loc(g, s2), f"{f.short} installs `{fld}` on another object ({unparse(t)}), and that object's own resolver {g.short} writes the same field (`{unparse(s2)[:60]}`): which of the two runs last depends on the order in which the two files are linked (directory listing, the file that is opened first), so the link is present under one order and wiped under the other")
+                else:
+                    R.ok("C15.R8", f.short, k, loc(f, st), f"`{fld}` of {len(ks)} candidate classes is written by no resolver of theirs")
+    if n == 0:
+        R.undecided("C15.R8", "resolvers", "cross-object link stores", "fortls/parsers", "no resolver stores a link on another object")
+
+
+
 def run(ctx, R):
     r1(ctx, R)
     r2(ctx, R)
@@ -512,3 +568,4 @@ def run(ctx, R):
     r5(ctx, R)
     r6(ctx, R)
     r7(ctx, R)
+    r8(ctx, R)
